@@ -573,3 +573,11 @@ def hosting_a_polled_module_creates_the_wake_up_event(ctx):
                   f'`{src(c)}` makes `{src(host)}` run a poll thread, but a path leaves initModule without `{src(host)}.triggerPoll` having been created or '
                   'tested: a communicator with enablePoll = False and nothing to write keeps triggerPoll = None - its poll thread dies in the first wait and '
                   'stopPollThread() raises AttributeError at shutdown, before any module is shut down', f)
+
+
+@rule('C15.R9', min_instances=1)
+def every_configured_start_value_is_written(ctx):
+    """shared with C10.R11: the first round of the poll thread writes EVERY configured start value before the first poll - also the
+    ones that are false (0, False, an empty string)"""
+    from sa.rules import c10
+    c10.a_false_start_value_is_still_a_value(ctx)
